@@ -350,16 +350,28 @@ def generate(rng, tier, outdir):
                 ids.append([o])
                 map_ids.append(0)
         elif mode == "diff_bases":
+            pairs = [k for k, g in enumerate(ids) if len(g) == 2]
             singles = [k for k, g in enumerate(ids) if len(g) == 1 and desc["items"][g[0]][0] == "qpd1"]
-            if len(singles) < 2:
+            if pairs:
+                # give the second half of a pair a basis that differs from its sibling's
+                k = pairs[int(rng.integers(0, len(pairs)))]
+                it = desc["items"][ids[k][int(rng.integers(0, 2))]]
+                old_key = desc["bases"][it[1]]
+                others2 = [key for key in BASIS2_KEYS if key != old_key]
+                desc["bases"].append(others2[int(rng.integers(0, len(others2)))])
+                it[1] = len(desc["bases"]) - 1
+                it[3] = None
+                map_ids[k] = 0
+            elif len(singles) >= 2:
+                a, b = singles[0], singles[1]
+                if desc["bases"][desc["items"][ids[a][0]][1]] == desc["bases"][desc["items"][ids[b][0]][1]]:
+                    continue
+                ids[a] = [ids[a][0], ids[b][0]]
+                del ids[b]
+                del map_ids[b]
+                map_ids[a] = 0
+            else:
                 continue
-            a, b = singles[0], singles[1]
-            if desc["bases"][desc["items"][ids[a][0]][1]] == desc["bases"][desc["items"][ids[b][0]][1]]:
-                continue
-            ids[a] = [ids[a][0], ids[b][0]]
-            del ids[b]
-            del map_ids[b]
-            map_ids[a if a < b else a - 1] = 0
         elif mode == "count_less":
             k = int(rng.integers(0, len(ids)))
             del ids[k]
